@@ -160,6 +160,26 @@ class MacroEngine(c01.CallEngine):
           fails.append(('ambiguous-constant-accepted', '%%%s matches %r' % (nm, match)))
         if len(match) == 1 and len(nm) < len(match[0]) and any(c != match[0] and c.split('.')[-1] == nm.split('.')[-1] for c in consts):
           nontrivial = True
+      if k == 'finalize' and not t['before']['locked']:
+        # finalize rejects a macro that is referenced (at any depth of any bound value) but never bound, or referenced
+        # without being evaluated
+        bound_macros = {s for s, q, _ in t['before']['config'] if q == 'gin.macro'}
+
+        def macro_refs(x):
+          if isinstance(x, T):
+            if x.tag == 'Ref' and len(x.args) == 3 and x.args[1] == 'gin.macro':
+              yield ('/'.join(x.args[0]), x.args[2])
+            for a in x.args:
+              yield from macro_refs(a)
+          elif isinstance(x, (list, tuple)):
+            for a in x:
+              yield from macro_refs(a)
+        bad = [(nm, ev) for _, _, pd in t['before']['config'] for _, v in pd for nm, ev in macro_refs(v)
+               if nm not in bound_macros or not ev]
+        tags.append('finalize:' + ('bad-macro' if bad else 'ok'))
+        if bad and exc is None:
+          fails.append(('finalize-accepted-bad-macro', 'macro references %r (name, evaluated) are unbound or unevaluated; bound macros %r' %
+                        (bad[:3], sorted(bound_macros))))
       if k == 'call' and t['depth'] >= 0:
         ctx = next(call_iter, None)
         if ctx is None or 'error' in ctx or ctx['log_end'] == ctx['log_start']:
